@@ -3,7 +3,6 @@
 //! takes snapshots of every terminal. No oracle lives here.
 
 use crate::plan::Plan;
-use crate::stubs::*;
 use crate::vals::*;
 use rrtk::devices::wrappers::*;
 use rrtk::devices::*;
@@ -471,8 +470,19 @@ pub struct TSnap {
     pub rd_td: Out,
 }
 
+/// the same reads made by the holder of the terminal's MUTABLE guard (a `RefMut` derefs to `&Terminal`:
+/// "write, then read back through the same guard" is ordinary safe code)
+pub fn snap_term_via_mut(t: TermRef<'_>) -> TSnap {
+    let guard = t.borrow_mut();
+    snap_of(&guard)
+}
+
 pub fn snap_term(t: TermRef<'_>) -> TSnap {
-    let b = t.borrow();
+    let guard = t.borrow();
+    snap_of(&guard)
+}
+
+fn snap_of(b: &Terminal<'_, E>) -> TSnap {
     let own_s = <Terminal<'_, E> as Settable<Datum<State>, E>>::get_last_request(&b)
         .map(|d| (d.time.0, state_bits(&d.value)));
     let own_c = <Terminal<'_, E> as Settable<Datum<Command>, E>>::get_last_request(&b).map(|d| {
